@@ -96,7 +96,8 @@ def gf_accessor_modes(gfsrc):
                     e1 = dict(env); block(st.body, e1)
                     for k in set(e1) | set(env): env[k] = join(env.get(k), e1.get(k))
                 elif isinstance(st, ast.Return):
-                    rets.append(classify(st.value, env))
+                    # `return self.<attr>` written literally is the accessor path; a NAME bound to the attribute is a reused buffer
+                    rets.append(("accessor",) if _is_self_attr(st.value, (attr,)) else classify(st.value, env))
                 elif isinstance(st, (ast.AugAssign, ast.Expr, ast.Pass, ast.Assert, ast.Raise)):
                     pass
                 else:
@@ -105,9 +106,13 @@ def gf_accessor_modes(gfsrc):
         block(fn.body, {a.arg: ("arg",) for a in fn.args.args})
         noarg, compute = None, "fresh"
         for r in rets:
-            if r == ("attr", attr): noarg = "attr"          # the accessor path
+            if r == ("accessor",): noarg = "attr"
             elif r[0] == "fresh": pass
-            else: compute = "reused"                       # attribute of another name, argument, unknown: fail closed
+            else: compute = "reused"                       # a name bound to an attribute, an argument, unknown: fail closed
+        # in-place writes into the stored attribute anywhere in the class (self.D[...] = ..., self.eta += ...) reuse the buffer
+        for n in ast.walk(clss[0]):
+            if isinstance(n, ast.Subscript) and isinstance(n.ctx, ast.Store) and _is_self_attr(n.value, (attr,)): compute = "reused"
+            if isinstance(n, ast.AugAssign) and _is_self_attr(n.target, (attr,)): compute = "reused"
         if noarg is None:
             if not any(r[0] == "fresh" for r in rets): raise Unrecognised("GFCrystalcalc.%s: no recognisable return" % name)
             noarg = "fresh"
